@@ -1371,3 +1371,311 @@ def rule_c14_minmax(r):
         for row in rows:
             _, status, f, fn, construct, line, detail = row
             getattr(r, status)(f, fn, construct, line, detail)
+
+
+# --------------------------------------------------------------------------------------------- C10: hidden() vs the C case analysis
+def rule_c10_hidden(r):
+    """`hidden(control)` of a model file tells the SasView wrapper which parameters do not exist for a multiplicity; the C
+    source overwrites exactly those parameters by case.  Sibling agreement: the case boundaries `hidden` tests on its
+    argument are the boundaries of the `if (icase <= ..) .. else if (icase <= ..)` chain that replaces parameters in the C
+    function (both normalised to `case < k`)."""
+    from .. import tables, cfront
+    n = 0
+    for mid, md in sorted(tables.models().items()):
+        fn = md.functions.get("hidden")
+        if fn is None:
+            continue
+        arg = fn.args.args[0].arg
+        # python side: comparisons of the (rounded) argument with integer constants
+        py = set()
+        for c in ast.walk(fn):
+            if isinstance(c, ast.Compare) and len(c.ops) == 1 and isinstance(c.left, ast.Name) and c.left.id == arg \
+                    and isinstance(c.comparators[0], ast.Constant) and isinstance(c.comparators[0].value, int):
+                k = c.comparators[0].value
+                op = type(c.ops[0]).__name__
+                if op == "Lt": py.add(k)
+                elif op == "LtE": py.add(k + 1)
+                elif op == "Gt": py.add(k + 1)
+                elif op == "GtE": py.add(k)
+                else: py.add(("?", op, k))
+        idx = cfront.generate_units()
+        meta = idx["models"].get(mid)
+        if not meta or meta.get("kind") != "c":
+            continue
+        unit = cfront.load_unit(mid, meta["unit"], meta)
+        from ..nf import c_text, c_strip
+        from ..ckernel import kids, norm
+        cs = set()
+        f = unit.functions.get("Iq")
+        if f is None or unit.body(f) is None:
+            raise AnalysisError("%s: Iq not found" % mid)
+        # the top-level if / else-if chain of Iq whose branches only assign parameters
+        for st in kids(unit.body(f)):
+            node = st
+            while node is not None and node.get("kind") == "IfStmt":
+                parts = kids(node)
+                for x in cfront.walk(parts[0]):
+                    if x.get("kind") == "BinaryOperator" and x.get("opcode") in ("<", "<=", ">", ">="):
+                        a, b = (c_strip(y) for y in kids(x))
+                        if b.get("kind") == "IntegerLiteral" and a.get("kind") == "DeclRefExpr":
+                            k = int(b["value"])
+                            cs.add({"<": k, "<=": k + 1, ">": k + 1, ">=": k}[x["opcode"]])
+                node = parts[2] if len(parts) > 2 else None
+        n += 1
+        ff, ll = md.relpath, fn.lineno
+        r.check(bool(py) and py == cs, ff, "hidden", "case boundaries %s vs %s in %s.c" % (sorted(py, key=str), sorted(cs), mid), ll,
+                "the parameters hidden for a case are the ones the C source replaces for that case" if py == cs else
+                "hidden() changes its answer at case %s but the C source at %s: for the cases in between the wrapper hides parameters the "
+                "kernel reads (they cannot be set and keep their defaults) or shows parameters it ignores" % (sorted(py, key=str), sorted(cs)))
+    if n < 1:
+        raise AnalysisError("no model with a hidden() function found")
+
+
+# --------------------------------------------------------------------------------------------- truncating integer constant division
+def intdiv_unit(unit, extra):
+    """Worker: `a / b` with two integer literals and a remainder is C integer division: `1/20160` is 0, `5/3` is 1.  In
+    model code, whose arithmetic is floating point throughout, it is a dropped decimal point."""
+    from .. import cfront
+    from ..nf import c_text, c_strip
+    from ..ckernel import kids
+    out = []
+    n_div = 0
+
+    def lit(x):
+        x = c_strip(x)
+        while x.get("kind") == "ParenExpr":
+            x = c_strip(kids(x)[0])
+        if x.get("kind") == "UnaryOperator" and x.get("opcode") in ("-", "+"):
+            v = lit(kids(x)[0])
+            return None if v is None else (-v if x["opcode"] == "-" else v)
+        if x.get("kind") == "IntegerLiteral":
+            return int(x["value"])
+        return None
+    for fname, fn in sorted(unit.functions.items()):
+        body = unit.body(fn)
+        if body is None:
+            continue
+        for x in cfront.walk(body):
+            if x.get("kind") == "BinaryOperator" and x.get("opcode") == "/":
+                a, b = kids(x)
+                va, vb = lit(a), lit(b)
+                n_div += 1
+                if va is not None and vb not in (None, 0) and va % vb != 0:
+                    f, l = unit.where(x)
+                    out.append(("R-intdiv", "violation", f, "%s:%s" % (unit.name, fname), "%s" % c_text(x)[:40], l,
+                                "integer division of two literals: evaluates to %d, not %.6g - the term it scales is lost or mis-scaled "
+                                "(write %s.0/%s)" % (int(va / vb) if va * vb > 0 else -(abs(va) // abs(vb)), va / vb, va, vb)))
+    f0 = sorted(unit.functions.items())[0][1] if unit.functions else None
+    out.append(("R-intdiv", "ok", "sasmodels/models/%s.c" % unit.name.split("@")[0], unit.name, "%d divisions examined" % n_div, 0, ""))
+    return out
+
+
+_intdiv_cache = {}
+
+
+def make_intdiv_rule(configs=("dll",)):
+    def run(r):
+        from .. import cfront
+        for cfg in configs:
+            if cfg not in _intdiv_cache:
+                try:
+                    _intdiv_cache[cfg] = cfront.map_units("sa.rules.extra3:intdiv_unit", config=cfg)
+                except AnalysisError as exc:
+                    if cfg != "dll" and "clang failed" in str(exc):
+                        # the front end's rejection of this configuration is reported by the gpu / builds rules
+                        r.note("sasmodels/generate.py", cfg, "configuration not parsed", 0, str(exc)[:200])
+                        _intdiv_cache[cfg] = {}
+                    else:
+                        raise
+            seen = set()
+            for unit, rows in sorted(_intdiv_cache[cfg].items()):
+                for row in rows:
+                    _, status, f, fn, construct, line, detail = row
+                    key = (f, line, construct) if status != "ok" else (unit,)
+                    if key in seen:
+                        continue
+                    seen.add(key)
+                    getattr(r, status)(f, fn, construct, line, detail)
+    return run
+
+
+# --------------------------------------------------------------------------------------------- C14/C07: special-case branches agree with the general code
+def _table_sums(unit):
+    """Sum of the leading GAUSS_N-like entries of the constant weight tables of the unit: {('Gauss76Wt', 'GAUSS_N' value): sum}."""
+    from ..ckernel import kids
+    sums = {}
+    for d in unit.ast.get("inner", []):
+        if d.get("kind") == "VarDecl" and "[" in d.get("type", {}).get("qualType", ""):
+            init = [x for x in kids(d) if x.get("kind") == "InitListExpr"]
+            if not init:
+                continue
+            vals = []
+            for x in kids(init[0]):
+                x2 = x
+                while x2.get("kind") in ("ImplicitCastExpr", "ParenExpr"):
+                    x2 = kids(x2)[0]
+                if x2.get("kind") in ("FloatingLiteral", "IntegerLiteral"):
+                    vals.append(float(x2["value"]))
+                elif x2.get("kind") == "UnaryOperator" and x2.get("opcode") == "-" and kids(x2)[0].get("kind") in ("FloatingLiteral", "IntegerLiteral"):
+                    vals.append(-float(kids(x2)[0]["value"]))
+                else:
+                    vals = None
+                    break
+            if vals:
+                sums[d["name"]] = vals
+    return sums
+
+
+def fastpath_unit(unit, extra):
+    """Worker: `if (x == c) { special } else { general }` in model code: interpreting both branches symbolically under the
+    branch's own equality (loops that sum weight[j] * term are summarised with the table's weight sum) must give the same
+    values for every variable both assign.  An analytic special case that forgets the quadrature normalisation (the sum of
+    the Gauss weights is 2, not 1) or any other factor differs from the general branch evaluated at the same point."""
+    from .. import cfront, nf
+    from ..nf import CInterp, c_text, c_strip
+    from ..ckernel import kids
+    out = []
+    tables = _table_sums(unit)
+    n_if = 0
+    # special functions of the library (lib/*.c, kernel_header.c) stay symbolic: sas_2J1x_x(x) is a function of x here
+    lib_funcs = {nm for nm, f_ in unit.functions.items() if unit.body(f_) is not None and "/models/lib/" in (unit.where(f_)[0] or "")
+                 or "/models/" not in (unit.where(f_)[0] or "")}
+    for fname, fn in sorted(unit.functions.items()):
+        body = unit.body(fn)
+        if body is None:
+            continue
+        f0, _ = unit.where(fn)
+        if "/models/" not in (f0 or ""):
+            continue        # the kernel template and kernel_header helpers are decided by their own rules
+        for st in cfront.walk(body):
+            if st.get("kind") != "IfStmt":
+                continue
+            parts = kids(st)
+            if len(parts) < 3:
+                continue
+            cond = c_strip(parts[0])
+            while cond.get("kind") == "ParenExpr":
+                cond = c_strip(kids(cond)[0])
+            if cond.get("kind") != "BinaryOperator" or cond.get("opcode") not in ("==", "!="):
+                continue
+            then, els = (parts[1], parts[2]) if cond["opcode"] == "==" else (parts[2], parts[1])
+            n_if += 1
+            a, b = kids(cond)
+            results = []
+            bad_shape = None
+            # the branch's own equality, known before the branches are interpreted (so that terms that stop depending on
+            # the loop index at the special point are seen as such)
+            env0 = {}
+            try:
+                it0 = CInterp(unit.functions)
+                va0, vb0 = it0.expr(a, {}), it0.expr(b, {})
+                if getattr(va0, "is_Symbol", False) and not getattr(vb0, "free_symbols", {1}):
+                    env0[str(va0)] = vb0
+                elif getattr(vb0, "is_Symbol", False) and not getattr(va0, "free_symbols", {1}):
+                    env0[str(vb0)] = va0
+            except Exception:
+                pass
+            # initial values: the declarations that precede the `if` in its own block (accumulators start from their declared
+            # value, usually 0.0); names defined further out stay symbols
+            pre = {}
+            for comp in cfront.walk(body):
+                if comp.get("kind") == "CompoundStmt" and any(x is st for x in kids(comp)):
+                    itp = CInterp(unit.functions, opaque=lib_funcs - {fname})
+                    for sib in kids(comp):
+                        if sib is st:
+                            break
+                        if sib.get("kind") == "DeclStmt":
+                            try:
+                                itp.stmt(sib, pre)
+                            except Exception:
+                                pass
+                    break
+            pre = {k_: v_ for k_, v_ in pre.items() if hasattr(v_, "free_symbols")}
+            pre.update(env0)
+            env0 = pre
+            for br in (then, els):
+                it = CInterp(unit.functions, opaque_loops=False, opaque=lib_funcs - {fname})
+                it.sum_loops = True
+                env = dict(env0)
+                try:
+                    it.stmt(br, env)
+                except CInterp.Return:
+                    bad_shape = "returns"
+                except AnalysisError as exc:
+                    bad_shape = str(exc)
+                except Exception as exc:
+                    bad_shape = "%s: %s" % (type(exc).__name__, exc)
+                results.append(env)
+            f, l = unit.where(st)
+            if bad_shape:
+                out.append(("R-C14-fastpath", "note", f, "%s:%s" % (unit.name, fname), "if (%s)" % c_text(parts[0])[:50], l, "not decided: %s" % bad_shape[:120]))
+                continue
+            try:
+                it = CInterp(unit.functions)
+                va, vb = it.expr(a, {}), it.expr(b, {})
+            except Exception:
+                continue
+            subs = {}
+            if getattr(va, "is_Symbol", False):
+                subs[va] = vb
+            elif getattr(vb, "is_Symbol", False):
+                subs[vb] = va
+            else:
+                out.append(("R-C14-fastpath", "note", f, "%s:%s" % (unit.name, fname), "if (%s)" % c_text(parts[0])[:50], l, "condition is not `name == value`"))
+                continue
+            T, G = results
+            common = sorted(k for k in set(T) & set(G) if hasattr(T[k], "free_symbols") and hasattr(G[k], "free_symbols")
+                            and not (k in env0 and T[k] == env0[k] and G[k] == env0[k]))
+            problems = []
+            for v in common:
+                tv, gv = sp.sympify(T[v]).subs(subs), sp.sympify(G[v]).subs(subs)
+                # weight sums of constant tables
+                for s_ in list(gv.free_symbols | tv.free_symbols):
+                    nm = str(s_)
+                    if nm.startswith("sum_"):
+                        tab, bound = nm[4:].rsplit("_", 1)
+                        if tab in tables:
+                            nb = None
+                            if bound.isdigit():
+                                nb = int(bound)
+                            elif bound in tables and False:
+                                nb = None
+                            total = sum(tables[tab][:nb]) if nb else sum(tables[tab])
+                            # Gauss-Legendre tables on [-1, 1] sum to 2 (to rounding); padded entries are zero
+                            gv, tv = gv.subs(s_, nf.num(round(total, 9))), tv.subs(s_, nf.num(round(total, 9)))
+                if gv.has(sp.nan, sp.zoo, sp.oo) or tv.has(sp.nan, sp.zoo, sp.oo):
+                    continue        # the general branch is singular at the special point: the special branch is its limit
+                try:
+                    same = sp.simplify(tv - gv) == 0
+                except Exception:
+                    continue
+                if not same:
+                    ratio = None
+                    try:
+                        ratio = sp.simplify(gv / tv)
+                    except Exception:
+                        pass
+                    problems.append("%s: special branch gives %s, the general branch at the same point gives %s%s" % (
+                        v, str(tv)[:80], str(gv)[:80], (" (ratio %s)" % ratio) if ratio is not None and ratio.is_Number else ""))
+            if problems:
+                out.append(("R-C14-fastpath", "violation", f, "%s:%s" % (unit.name, fname), "if (%s)" % c_text(parts[0])[:50], l,
+                            "; ".join(problems)[:400]))
+            elif common:
+                out.append(("R-C14-fastpath", "ok", f, "%s:%s" % (unit.name, fname), "if (%s): %s" % (c_text(parts[0])[:40], ", ".join(common)[:60]), l,
+                            "special and general branch agree under the branch's own equality (or the general branch is singular there)"))
+    out.append(("R-C14-fastpath", "ok", "sasmodels/models/%s.c" % unit.name, unit.name, "%d equality-guarded if/else examined" % n_if, 0, ""))
+    return out
+
+
+_fastpath_cache = None
+
+
+def rule_c14_fastpath(r):
+    global _fastpath_cache
+    if _fastpath_cache is None:
+        from .. import cfront
+        _fastpath_cache = cfront.map_units("sa.rules.extra3:fastpath_unit")
+    for unit, rows in sorted(_fastpath_cache.items()):
+        for row in rows:
+            _, status, f, fn, construct, line, detail = row
+            getattr(r, status)(f, fn, construct, line, detail)
